@@ -14,7 +14,9 @@ RULE = ("typed circuit trees over the whole vocabulary (BS in the three conventi
         "break_in_2_mode_perms), flatten (Processor with circuits at offsets, loss channels in between: flatten(max_depth), "
         "linear_circuit(flatten), non_unitary_circuit(flatten on/off)), simplify (both display modes; the output circuit's "
         "matrix judged by the proved checker mat_close at 1e-9 and by float comparison), perm-utils (extend_perm, "
-        "perm_compose, reduce_perm, invert_permutation, _move_comp, _update_adjacent vs the translated functions). "
+        "perm_compose, reduce_perm, invert_permutation, _update_adjacent vs the translated functions). The models follow "
+        "/repo as it is now (after db5cda2f, 47d2b926, 4e70c855); the witnesses of the repaired defects stay in the corpus "
+        "and the pre-repair behaviour is still recognised, under its old signature, should it return. "
         "Non-trivial: inverse = a BS with >= 2 distinct non-zero phases is present; simplify = >= 2 PERMs with >= 1 component "
         "between them; flatten = a circuit nested in a circuit; distinct by (structure, leaf matrices, flags).")
 TRUSTED = ["model: coq/Model/Transform.v, Simplify.v, TransformX.v (hand-written; tied by these correspondence streams)",
@@ -180,7 +182,7 @@ FIX_SIG = {1: ["bs-inverse-v-unequal-phases"], 2: ["bs-inverse-h-unequal-phases"
 
 def inverse_case(ctx, tree, v, h, mo):
     """Returns list of (signature, what, expected, observed) for one (tree, v, h)."""
-    code, exp, oks = un_mat(mo[0]), un_mat(mo[1]), mo[2]
+    code, exp, oks, old = un_mat(mo[0]), un_mat(mo[1]), mo[2], un_mat(mo[3])
     try:
         c = build(tree)
         c.inverse(v=bool(v), h=bool(h))
@@ -189,11 +191,13 @@ def inverse_case(ctx, tree, v, h, mo):
         return [("inverse-exception-" + type(e).__name__, f"Circuit.inverse(v={v},h={h}) raised {e!r}", None, repr(e))]
     out = []
     if not mat_close(U, code):
-        out.append(("inverse-impl-differs-from-model", f"Circuit.inverse(v={v},h={h}): implementation and faithful model "
-                    "disagree", str(code), str(U)))
+        out.append(("inverse-impl-differs-from-model", f"Circuit.inverse(v={v},h={h}): implementation and the model of the "
+                    "current code disagree" + (" (it behaves like the code before db5cda2f)" if mat_close(U, old) else ""),
+                    str(code), str(U)))
     if not mat_close(U, exp):
+        # regression guard: the pre-repair behaviour is recognised and reported under the signature of its defect
         need = next((i for i in range(1, 8) if oks[i] == 1), None)
-        sigs = FIX_SIG.get(need, ["inverse-wrong-matrix"]) if oks[0] == 0 else ["inverse-wrong-matrix"]
+        sigs = FIX_SIG.get(need, ["inverse-wrong-matrix"]) if (oks[0] == 0 and mat_close(U, old)) else ["inverse-wrong-matrix"]
         for s in sigs:
             out.append((s, f"Circuit.inverse(v={bool(v)}, h={bool(h)}) does not yield "
                         + ("J U^dagger J" if v and h else "J U J" if v else "the adjoint (inverse) matrix"), str(exp), str(U)))
@@ -389,17 +393,14 @@ def stream_flatten(ctx, n):
             k += 1
             if d is None:
                 mo_none = mo
-            lc, lf = mo[0], mo[1]
+            lc, lo = mo[0], mo[1]      # listing by the code as it is now / by the code before 47d2b926
             try:
                 fl = p.flatten(max_depth=d)
                 L = [[r[0], len(r), 1 if isinstance(c, Circuit) else 0] for r, c in fl]
             except Exception as e:
                 ctx.fail("flatten-exception-" + type(e).__name__, f"flatten(max_depth={d}) raised {e!r}", dict(text, max_depth=d))
                 continue
-            if L != lc:
-                ctx.fail("flatten-impl-differs-from-model", f"flatten(max_depth={d}): listing differs from the faithful model",
-                         dict(text, max_depth=d), lc, L)
-            bad = L != lf
+            bad = L != lc
             if not has_lc:
                 try:
                     U = np_mat(circ_from_list(M, fl))
@@ -407,10 +408,11 @@ def stream_flatten(ctx, n):
                 except Exception:
                     bad = True
             if bad:
-                sig = "flatten-depth2-offset" if (L == lc and lc != lf) else "flatten-wrong-listing"
+                sig = "flatten-depth2-offset" if (L == lo and lo != lc) else "flatten-wrong-listing"
                 ctx.fail(sig, f"Processor.flatten(max_depth={d}) places components on the wrong modes (matrix not preserved)",
-                         dict(text, max_depth=d), lf, L)
-        lc, lf = mo_none[0], mo_none[1]
+                         dict(text, max_depth=d), lc, L)
+        lc, lo = mo_none[0], mo_none[1]
+        old_like = False
         # linear_circuit(flatten=True/False)
         if not has_lc:
             for flat in (True, False):
@@ -421,9 +423,9 @@ def stream_flatten(ctx, n):
                 except Exception as e:
                     ctx.fail("linear-circuit-exception-" + type(e).__name__, f"linear_circuit(flatten={flat}) raised {e!r}", text)
                     continue
-                if not mat_close(U, un_mat(mo_none[3])) or L != lf:
+                if not mat_close(U, un_mat(mo_none[3])) or L != lc:
                     ctx.fail("linear-circuit-wrong", f"linear_circuit(flatten={flat}) does not preserve the matrix / leaf placement",
-                             dict(text, flatten=flat), lf, L)
+                             dict(text, flatten=flat), lc, L)
         # non_unitary_circuit
         lvs = exp_leaves(items)
         for flat in (True, False):
@@ -435,16 +437,15 @@ def stream_flatten(ctx, n):
             if flat:
                 L = [[r[0], len(r), 0] for r, _ in nu]
                 if L != lc:
-                    ctx.fail("flatten-impl-differs-from-model", "non_unitary_circuit(flatten=True): listing differs from the model", text, lc, L)
-                if L != lf:
-                    ctx.fail("flatten-depth2-offset" if lc != lf else "flatten-wrong-listing",
-                             "non_unitary_circuit(flatten=True) places components on the wrong modes", text, lf, L)
+                    old_like = (L == lo)
+                    ctx.fail("flatten-depth2-offset" if old_like else "flatten-wrong-listing",
+                             "non_unitary_circuit(flatten=True) places components on the wrong modes", text, lc, L)
                 continue
-            regroup_jobs.append((M, items, text, nu, lvs, lc, lf))
+            regroup_jobs.append((M, items, text, nu, lvs, lc, old_like))
     # regrouping: runs between loss channels
     rreq, rmeta = [], []
-    for M, items, text, nu, lvs, lc, lf in regroup_jobs:
-        for which, lst in (("code", lc), ("spec", lf)):
+    for M, items, text, nu, lvs, lc, old_like in regroup_jobs:
+        for which, lst in (("code", lc), ("spec", lc)):
             run, runs = [], []
             for (off, w, _), (_, lfn) in zip(lst, lvs):
                 if lfn["kind"] == "LC":
@@ -464,7 +465,7 @@ def stream_flatten(ctx, n):
     routs = ctx.model.run(rreq)
     pos = 0
     mi = 0
-    for M, items, text, nu, lvs, lc, lf in regroup_jobs:
+    for M, items, text, nu, lvs, lc, old_like in regroup_jobs:
         ctx.count("regroup")
         exp_seq = {}
         for which in ("code", "spec"):
@@ -499,7 +500,8 @@ def stream_flatten(ctx, n):
                     return False
             return True
         if not same(exp_seq["code"]):
-            ctx.fail("regroup-impl-differs-from-model", "non_unitary_circuit(): blocks differ from the faithful model", text,
+            ctx.fail("flatten-depth2-offset" if old_like else "regroup-impl-differs-from-model",
+                     "non_unitary_circuit(): blocks differ from the model of the current code", text,
                      [(e[0], e[1]) for e in exp_seq["code"]], [(o[0], o[1]) for o in obs])
         # property: each block, embedded at its range, equals the product of the true components of its segment
         ok = len(exp_seq["spec"]) == len(obs)
@@ -515,7 +517,7 @@ def stream_flatten(ctx, n):
                     if not mat_close(emb, e[4]):
                         ok = False
         if not ok:
-            ctx.fail("flatten-depth2-offset" if lc != lf else "regroup-wrong-block",
+            ctx.fail("flatten-depth2-offset" if old_like else "regroup-wrong-block",
                      "non_unitary_circuit(): a unitary block between non-unitary components is not the product of the "
                      "components of its segment", text)
     ctx.streams["flatten"] = len(exps) * 4
@@ -725,7 +727,7 @@ def stream_perm_utils(ctx, n):
         for x in rs:
             S._update_adjacent(adj, tuple(x))
         reqs.append((1106, [mm, rs]))
-        checks.append(("_update_adjacent", (mm, rs), sorted(sorted(g) for g in adj)))
+        checks.append(("_update_adjacent", (mm, rs), [list(g) for g in adj]))
     outs = ctx.model.run(reqs)
     for (name, args, impl), mo in zip(checks, outs):
         ctx.case(["perm", name, [list(a) if isinstance(a, (list, tuple)) else a for a in args]], True, None)
@@ -733,10 +735,12 @@ def stream_perm_utils(ctx, n):
         if name == "reduce_perm":
             exp = [mo[0] if mo[1] else None, mo[1]]
         elif name == "_update_adjacent":
-            exp = sorted(mo[0])
-            covered = sorted(x for g in mo[0] for x in g)
-            if covered != list(range(args[0])):
-                ctx.count("perm._update_adjacent.loses-modes")
+            exp = mo[0]       # groups in list order, each sorted (the code as it is now)
+            if sorted(x for g in impl for x in g) != list(range(args[0])):
+                ctx.fail("update-adjacent-loses-modes", "_update_adjacent: a mode belongs to no group",
+                         {"fn": name, "args": str(args)}, exp, impl)
+            if mo[1] != mo[0]:
+                ctx.count("perm._update_adjacent.differs-from-pre-repair-code")
         elif name == "break_in_2_mode_perms" and impl is None:
             continue
         else:
